@@ -1417,7 +1417,7 @@ Proof.
          | PPostShort => Some {| m_start := 0; m_end := 0; m_groups := [] |}
          | _ => None
          end).
-  exists search, (fun _ _ => []), 10%nat, 10%nat, {| d_nd := []; d_isdigit := [] |},
+  exists search, (fun _ _ => []), 10%nat, 10%nat, {| d_nd := []; d_isdigit := []; d_maxdigits := 4300%N |},
          2100, 2026, (fun _ => None), (fun _ => 0%nat), (fun _ => true), (fun _ => false),
          [115%N; 121%N; 99%N], [T cx_stop; W [121%N]; T t], [(2%nat, t)], false.
   eexists.
@@ -1498,7 +1498,7 @@ Proof.
          if str_eqb s [98%N; 100%N; 121%N]
          then [(1%nat, 2%nat, @nil (str * option str))] else []).
   set (ws := [T cx_stop; W [97%N]; T t1; W [98%N]; T t2; W [121%N]]).
-  exists search, refsearch, 10%nat, 10%nat, {| d_nd := []; d_isdigit := [] |},
+  exists search, refsearch, 10%nat, 10%nat, {| d_nd := []; d_isdigit := []; d_maxdigits := 4300%N |},
          2100, 2026, (fun _ => None), (fun _ => 0%nat), (fun _ => true), (fun _ => false),
          [115%N; 97%N; 99%N; 98%N; 100%N; 121%N], ws, [(4%nat, t2); (2%nat, t1)].
   eexists.
